@@ -128,6 +128,19 @@ CHECKS["C11"] = dict(
     technique="Lean 4 proof (state-independence of outputs on reachable states, induction over histories) + extracted state inventory + differential correspondence against a fresh interpreter",
     design="5/C11")
 
+CHECKS["C12"] = dict(
+    text="Lean 4 (line and level layers): refFormat_congr, seq_area_irrelevant (columns 1-6), ident_area_irrelevant (columns 73-80), "
+         "dropped_lines_irrelevant (comment/blank/EJECT/SKIP lines), replacing_once (every line once, all replacements applied; D18 refuted for "
+         "the pinned commit), leading_space_irrelevant, renumber_invariant (any order-preserving renumbering of the levels that occur gives the "
+         "same forest). The clause layer (synonyms, optional words, clause order, separators, case, storage-irrelevant clauses) is decided by a "
+         "METAMORPHIC oracle on the real code: every rewrite kind alone and in random compositions must leave layout and decoded values "
+         "unchanged; the real reference_format+dde_sentences are corresponded with RefFormat.parseText on every respelled text.",
+    note="PARTIAL at the proof level: the CLAUSES regular expression is pinned and exercised metamorphically, not modelled in Lean. Known "
+         "findings D20, D26, D27, D28, D32, D33, D39, D11 each have their own rewrite-kind signature; any other rewrite that changes the result "
+         "is a violation.",
+    technique="Lean 4 proof (list congruence for the line layer; simulation of the stack machine under level renumbering) + pinned-source tie + metamorphic differential testing of the clause layer",
+    design="5/C12")
+
 NOT_APPLICABLE = {
 }
 
